@@ -286,7 +286,25 @@ func judgeObligations(m *Model, seqs map[seqKey][]*Attempt, sendResolvedOf func(
 						continue
 					}
 					if fp, _ := split(p); !fp[mk] {
-						continue
+						// the latest notification does not mention the alert (it was muted when that one went out). The
+						// receiver's last word on it is an earlier "firing". Its resolution is still reported at the next
+						// flush as long as the log entry of the latest notification lists some firing alert (a resolved alert
+						// that the entry does not list as resolved forces a notification; with an entry without firing alerts
+						// and no firing alert left nothing is sent: the long-standing upstream loss, see DESIGN 11.4)
+						var pm *Attempt
+						for _, b := range s {
+							if b.OK() && !b.Done.After(u) {
+								if fb, rb := split(b); fb[mk] || rb[mk] {
+									pm = b
+								}
+							}
+						}
+						if pm == nil || len(fp) == 0 {
+							continue
+						}
+						if fm, _ := split(pm); !fm[mk] {
+							continue
+						}
 					}
 					// "told is firing" = the latest notification lists it as firing. A delivery that began before u, is
 					// still in flight at u and succeeds later without listing the alert as firing (it was muted when that
